@@ -1080,7 +1080,8 @@ def suite_frames(rng, tier):
     # rejected packets in the middle of a frame: every per-packet rejection consumes its own length only
     for n in range(80 if tier == "quick" else 1500):
         kind = rng.choice(["unknown-mand", "unknown-mand-ext", "unknown-mand-first", "badcrc", "unknown-fid", "nostorage", "noreuse",
-                           "ext-first-nearly-whole", "ext-first-nearly-whole"])
+                           "ext-first-nearly-whole", "ext-first-nearly-whole",
+                           "oversize-complete", "oversize-first", "oversize-inter", "oversize-end"])
         for mode in ("single", "walk"):
             s = Session("reject%d-%s" % (n, mode))
             s.strict = False
@@ -1126,6 +1127,20 @@ def suite_frames(rng, tier):
             elif kind == "noreuse":
                 s.setreg(900, "h:f0050800aabbcc")
                 regs = [900] + regs
+            elif kind == "oversize-complete":       # 70-byte PDU, 64-byte storages
+                s.setreg(900, "h:e0480800+g:%d:70" % n)
+                regs.append(900)
+            elif kind == "oversize-first":          # announces 100 bytes
+                s.setreg(900, "h:a00a0200660800+g:%d:5" % n)
+                regs.append(900)
+            elif kind in ("oversize-inter", "oversize-end"):
+                s.setreg(900, "h:a00a0200320800+g:%d:5" % n)                 # first fragment of a 48-byte PDU: accepted
+                regs.append(900)
+                if kind == "oversize-inter":
+                    s.setreg(901, "h:303f02+g:%d:62" % (n + 1))              # 62 more bytes: beyond the 64-byte storage
+                else:
+                    s.setreg(901, "h:704302+g:%d:62+h:00000000" % (n + 1))   # end fragment with 62 bytes
+                regs.append(901)
             j = s.encap(bs_gen(n + 3, 5), 1, 0x0800, LBL_BC, bs_zero(40))
             regs.append(s.ops[j]["reg"])
             if mode == "single":
@@ -1333,6 +1348,18 @@ def suite_extlattice(rng, tier):
                     s.enc("new")
                     s.encap(bs_gen(n, pl), 3, pt, lab, bs_zero(bl), exts=ch)
                     out.append(s)
+    # encap_ext with an EMPTY extension list (refused: ErrorNoExtensionFound), for every label kind / size
+    for lab in (LBL_A6, LBL_A3, LBL_BC, LBL_RU):
+        for pt in (0x0800, 0x0081, 0x0100):
+            for bl in (3, 20, 64):
+                s = Session("extempty%d" % n)
+                n += 1
+                s.strict = False
+                s.enc("new")
+                i = s.encap(bs_gen(n, 9), 2, pt, LBL_A3, bs_zero(64))
+                s.encap(bs_gen(n, 9), 2, pt, lab, bs_const(0xAA, bl), exts=[])
+                s.encap(bs_gen(n, 9), 2, 0x0800, LBL_A3, bs_zero(64))
+                out.append(s)
     # the mandatory rejections of encap_ext (zero 6-byte label and its neighbours, explicit re-use with and
     # without something to re-use, protocol types in the refused range) on every chain shape
     from suites import LBL_Z6, TRICKY_LABELS
